@@ -185,14 +185,22 @@ where
             let key_bytes = key.encode_vec();
             let cache_bytes = cache.encode_vec();
             if cache.is_old(block_number) {
+                #[cfg(feature = "verif")]
+                crate::verif::failpoint("cached.commit", self.cache_db.path(), "delete", &key_bytes);
                 self.cache_db.delete(&key_bytes)?;
             } else {
+                #[cfg(feature = "verif")]
+                crate::verif::failpoint("cached.commit", self.cache_db.path(), "put", &key_bytes);
                 self.cache_db.put(&key_bytes, &cache_bytes)?;
             }
 
             if let Some(value) = cache.latest() {
+                #[cfg(feature = "verif")]
+                crate::verif::failpoint("cached.commit", self.db.path(), "put", &key_bytes);
                 self.db.put(&key_bytes, &value.encode_vec())?;
             } else {
+                #[cfg(feature = "verif")]
+                crate::verif::failpoint("cached.commit", self.db.path(), "delete", &key_bytes);
                 self.db.delete(&key_bytes)?;
             }
         }
